@@ -162,8 +162,48 @@ func C16(p *core.Program, r *core.Report) {
 				ok = true
 			}
 		}
-		r.Check(ok && core.IsBoolConst(rv.V, true), "activation/"+fname(act)+"/successful-result", "activate reports success only on the err==nil edge of Start()", p.Pos(rv.At.Pos()), "", "successful may be true without a successful Start; "+condStrings(conds))
+		if _, already := callGuard(conds, claPkg+".convergenceElem.isActive", true); already {
+			// the element was started before (ttl < 0 is written only after a successful Start): reporting
+			// success keeps callers from giving the running adapter up
+			ok = true
+		}
+		r.Check(ok && core.IsBoolConst(rv.V, true), "activation/"+fname(act)+"/successful-result", "activate reports success only on the err==nil edge of Start(), or for an element that is already active", p.Pos(rv.At.Pos()), "", "successful may be true without a successful Start; "+condStrings(conds))
 	}
+	// an element that is found active is never reported as a failure without retry (the caller would forget it while it runs)
+	for _, rv := range core.ReturnValues(act, 0) {
+		if _, already := callGuard(core.DominatingConds(rv.At.Block()), claPkg+".convergenceElem.isActive", true); already {
+			r.Check(core.IsBoolConst(rv.V, true), "activation/"+fname(act)+"/active-is-success", "activate on an element that is already active (e.g. a retry tick racing with a registration) reports success: (false,false) makes the retry loop delete a running adapter from the registry", p.Pos(rv.At.Pos()), "", "an active element is reported as not successful")
+		}
+	}
+	// the active test that guards Start is made while holding the element's mutex
+	lsAct := core.ComputeLockSets(act)
+	for _, sc := range startInvokes(act) {
+		call, g := callGuard(core.DominatingConds(sc.(*ssa.Call).Block()), claPkg+".convergenceElem.isActive", false)
+		held := false
+		if g {
+			_, held = lsAct.Held(call, mtx, true)
+		}
+		r.Check(g && held, "activation/"+fname(act)+"/active-test-under-mutex", "the isActive() test that guards Start() is made while holding the element's mutex (two concurrent activations must not both start the adapter)", p.Pos(sc.(*ssa.Call).Pos()), "", "isActive() is tested before the mutex is taken: a retry tick and a registration can both pass it and start one adapter twice")
+	}
+	// registrations are serialised: look-up, start and store of one address do not interleave
+	rcFn := p.Func(claPkg, "Manager", "registerConvergence")
+	lsRc := core.ComputeLockSets(rcFn)
+	okSer := true
+	nSer := 0
+	core.EachInstr(rcFn, func(in ssa.Instruction) {
+		c, ok := in.(ssa.CallInstruction)
+		if !ok {
+			return
+		}
+		n := core.CalleeName(c)
+		if n == "sync.Map.Load" || n == "sync.Map.Store" || core.NameIs(n, claPkg+".convergenceElem.activate") {
+			nSer++
+			if len(lsRc.At[in]) == 0 {
+				okSer = false
+			}
+		}
+	})
+	r.Check(okSer && nSer >= 3, "single-instance/"+fname(rcFn)+"/serialised", "a registration looks the address up, starts the adapter and stores the element under one manager-wide lock: two registrations of one address (two discovery announcements) cannot both start an instance", p.Pos(rcFn.Pos()), "", "registry look-up / activate / store are not all inside a locked region")
 	r.Check(nTrue > 0, "activation/"+fname(act)+"/has-success", "activate has a success result", p.Pos(act.Pos()), "", "no true result")
 	for _, sc := range startInvokes(act) {
 		conds := core.DominatingConds(sc.(*ssa.Call).Block())
